@@ -116,6 +116,30 @@ impl Runner {
         }
     }
 
+    /// a number that is already present in the state of the world
+    pub fn observed_quantity(&mut self) -> Option<u128> {
+        let np = self.sim.model.pairs.len();
+        let mut pool: Vec<u128> = vec![];
+        if np > 0 {
+            let i = self.rng.pick_idx(np);
+            let (r0, r1, s) = self.pair_state(i);
+            let p = self.sim.model.pairs[i].clone();
+            pool.extend([r0, r1, s, s.saturating_sub(1), p.mins[0], p.mins[1]]);
+            let who = self.random_actor();
+            pool.push(self.bal(&p.keys[0], &who));
+            pool.push(self.bal(&p.keys[1], &who));
+            pool.push(self.bal(&p.lp_key(), &who));
+            let router = self.sim.model.router.clone();
+            pool.push(self.bal(&p.keys[0], &router));
+        }
+        pool.retain(|v| *v > 0);
+        if pool.is_empty() {
+            None
+        } else {
+            Some(*self.rng.pick(&pool))
+        }
+    }
+
     /// an amount in (0, cap] biased toward interesting magnitudes
     pub fn amount_upto(&mut self, cap: u128) -> u128 {
         if cap == 0 {
@@ -123,6 +147,20 @@ impl Runner {
         }
         if self.rng.chance(6, 100) {
             return self.structured(cap);
+        }
+        if self.rng.chance(6, 100) {
+            // exactly (or one off) a quantity that already exists in the world: a reserve, a
+            // supply, somebody's balance, a configured minimum
+            if let Some(v) = self.observed_quantity() {
+                let v = match self.rng.weighted(&[60, 20, 20]) {
+                    0 => v,
+                    1 => v.saturating_add(1),
+                    _ => v.saturating_sub(1),
+                };
+                if v >= 1 && v <= cap {
+                    return v;
+                }
+            }
         }
         match self.rng.weighted(&[8, 30, 40, 12, 10]) {
             0 => 1,
